@@ -469,6 +469,11 @@ func TestC02(t *testing.T) {
 						{Op: "bin", Ty: gen.TFloat, Name: "*", Args: []*gen.Expr{{Op: "lit", Ty: gen.TFloat, F: 2.5}, {Op: "lit", Ty: gen.TInt, I: 1000000}}},
 						{Op: "bin", Ty: gen.TFloat, Name: "/", Args: []*gen.Expr{{Op: "bin", Ty: gen.TFloat, Name: "/", Args: []*gen.Expr{{Op: "lit", Ty: gen.TFloat, F: 1.0}, {Op: "lit", Ty: gen.TInt, I: 8}}}, {Op: "lit", Ty: gen.TInt, I: 100000}}},
 						{Op: "bin", Ty: gen.TFloat, Name: "+", Args: []*gen.Expr{{Op: "lit", Ty: gen.TFloat, F: 0.5}, {Op: "lit", Ty: gen.TInt, I: 2}}},
+						// integer constants next to text: the literal is converted to a string
+						{Op: "lit", Ty: gen.TInt, I: 200},
+						{Op: "lit", Ty: gen.TInt, I: 5},
+						{Op: "bin", Ty: gen.TInt, Name: "*", Args: []*gen.Expr{{Op: "lit", Ty: gen.TInt, I: 100}, {Op: "lit", Ty: gen.TInt, I: 2}}},
+						{Op: "bin", Ty: gen.TInt, Name: "-", Args: []*gen.Expr{{Op: "lit", Ty: gen.TInt, I: 7}, {Op: "lit", Ty: gen.TInt, I: 2}}},
 					}).Draw(rt, "sk")
 					if pos == "strcat" {
 						s.E = &gen.Expr{Op: "bin", Ty: gen.TString, Name: "+", Args: []*gen.Expr{{Op: "cap", Ty: gen.TString, Name: "s"}, k}}
@@ -492,7 +497,7 @@ func TestC02(t *testing.T) {
 			}
 			nl := rapid.IntRange(1, 3).Draw(rt, "nlines")
 			for i := 0; i < nl; i++ {
-				c.Lines = append(c.Lines, rapid.SampledFrom([]string{"5 2.5 ff", "0 0.0 10", "3 1.5 7", "junk", "2 0.5 z", "7 0.1 a", "1 9007199254740992.0 b", "99999999999999999999 2.5 w", "0 1.5 zero", "s 2.5e+06", "s 1.25e-06", "s a", "s 2.5"}).Draw(rt, "line"))
+				c.Lines = append(c.Lines, rapid.SampledFrom([]string{"5 2.5 ff", "0 0.0 10", "3 1.5 7", "junk", "2 0.5 z", "7 0.1 a", "1 9007199254740992.0 b", "99999999999999999999 2.5 w", "0 1.5 zero", "s 2.5e+06", "s 1.25e-06", "s a", "s 2.5", "s 200", "s 5", "s timeout", "s 05"}).Draw(rt, "line"))
 			}
 			f, res := runC02(c)
 			st.Eval()
